@@ -47,13 +47,14 @@ SPECIAL = [
     '[Na+].[O-]c1ccccc1', '[K+].[K+].[O-]C(=O)C(=O)[O-]', 'CC[N+](CC)(CC)CC.[O-]Cl(=O)(=O)=O', '[Li+].[AlH4-]', '[Na+].[BH4-]',
     '[H][H]', '[H+]', '[H-]', '[He]', '[Xe]', 'F[Xe]F', '[U+6]', 'O=[U+2]=O', '[Cl-].[Cl-].[Zn+2]',
     'C1C2C3CC1C1C(CCCC1C3)C2', 'C1CC2(CC2)C12CC2', 'C1CC2(CC2)C2(CC2)C12CC2', 'C1CC2(CCC2)C12CC2', 'C1CCC2(CC2)C12CCC2', 'C1CC2(CC2)CC12CC2',
-    '[2H][C@](F)(Cl)Br', 'C[C@]([2H])(O)CC', '[H][C@](F)(Cl)Br', '[C@]([H])(F)(Cl)Br', 'N[C@@]([2H])(C)C(=O)O', '[3H][C@]1(N)CCCO1',
-    'C[Sn](C)C |^1:1|', 'C[Hg] |^1:1|', 'c1cc[n]c1 |^1:3|', 'C[Si](C)C |^1:1|',
+    '[2H][C@](F)(Cl)Br', 'C[C@]([2H])(O)CC', 'N[C@@]([2H])(C)C(=O)O', '[3H][C@]1(N)CCCO1',
     # unbonded hydrogens in mixtures, main-group hydrides
     '[H+].[Cl-]', '[Na+].[H-]', 'C[NH3+].[H-]', '[H+].[H+].[O-]S([O-])(=O)=O', '[SiH4]', '[GeH4]',
 ]
 # hydrogen-free main-group atoms, alone or held only by coordinate bonds: the reader keeps the written count although no valence state
 # lists it, any recalculation turns them into hydrides - usable only where a property speaks about every molecule as parsed (C02)
+# protium written as an atom on a stereocentre: other toolkits fold it away on reading, so only checks that stay inside the library use these
+EXPLICIT_H = ['[H][C@](F)(Cl)Br', '[C@]([H])(F)(Cl)Br', 'C[C@@]([H])(O)CC', '[H][C@@]1(C)CCCO1', 'N[C@]([H])(C)C(=O)O', 'F[C@]([H])(Cl)[C@@]([H])(F)Br']
 ELEMENTAL = ['[C]', '[B]', '[S]', '[P]', '[Si]', '[C]~[Fe]', '[S](~[Fe])~[Fe]', '[Fe]~[C](~[Fe])(~[Fe])~[Fe]', '[B]~[Ni]', '[P]~[Co]', 'C~[Fe]',
              '[CH3]~[Fe]', '[C].[Fe]', '[H].[H]', '[C]~[Fe]~[C]', '[S]~[Cu]~S', '[P](~[Ni])(~[Ni])~[Ni]']
 
